@@ -6071,25 +6071,32 @@ impl<Front: SocketHandler> ConnectionH2<Front> {
                 return self.goaway(H2Error::FlowControlError);
             }
         } else if let Some(global_stream_id) = self.streams.get(&stream_id).copied() {
+            let is_client = self.position.is_client();
             let stream = &mut context.streams[global_stream_id];
             self.attribute_bytes_to_stream(&mut stream.metrics);
-            let stream_window_before = stream.window;
-            if let Some(window) = stream.window.checked_add(increment) {
-                if stream.window <= 0 && window > 0 {
+            // the window this connection sends against (see `Stream::backend_window`)
+            let stream_window = if is_client {
+                &mut stream.backend_window
+            } else {
+                &mut stream.window
+            };
+            let stream_window_before = *stream_window;
+            if let Some(window) = stream_window.checked_add(increment) {
+                if *stream_window <= 0 && window > 0 {
                     self.readiness.arm_writable();
                 }
-                stream.window = window;
+                *stream_window = window;
                 // Same replenish invariant as the connection window, applied to
                 // the per-stream send window (RFC 9113 §6.9.1). Overflow past
                 // 2^31-1 is rejected by `checked_add` and handled as a
                 // FLOW_CONTROL_ERROR RST_STREAM below.
                 debug_assert_eq!(
-                    stream.window,
+                    *stream_window,
                     stream_window_before + increment,
                     "stream window must increase by exactly the increment"
                 );
                 debug_assert!(
-                    stream.window > stream_window_before,
+                    *stream_window > stream_window_before,
                     "a positive WINDOW_UPDATE must strictly grow the stream window"
                 );
                 debug!(
@@ -6097,7 +6104,7 @@ impl<Front: SocketHandler> ConnectionH2<Front> {
                     log_context!(self),
                     stream_id,
                     increment,
-                    stream.window
+                    *stream_window
                 );
             } else {
                 let result = self.reset_stream(
@@ -6146,15 +6153,22 @@ impl<Front: SocketHandler> ConnectionH2<Front> {
             }
         };
         let mut open_window = false;
+        let is_client = self.position.is_client();
         // Only update windows for streams owned by this connection
         for &global_stream_id in self.streams.values() {
             let stream = &mut context.streams[global_stream_id];
+            // the window this connection sends against (see `Stream::backend_window`)
+            let stream_window = if is_client {
+                &mut stream.backend_window
+            } else {
+                &mut stream.window
+            };
             // RFC 9113 §6.9.2: changes to SETTINGS_INITIAL_WINDOW_SIZE can cause
             // stream windows to exceed 2^31-1, which is a flow control error.
-            match stream.window.checked_add(delta) {
+            match stream_window.checked_add(delta) {
                 Some(new_window) => {
-                    open_window |= stream.window <= 0 && new_window > 0;
-                    stream.window = new_window;
+                    open_window |= *stream_window <= 0 && new_window > 0;
+                    *stream_window = new_window;
                 }
                 None => return true,
             }
@@ -6571,7 +6585,7 @@ impl<Front: SocketHandler> ConnectionH2<Front> {
         }
     }
 
-    pub fn start_stream<L>(&mut self, stream: GlobalStreamId, _context: &mut Context<L>) -> bool
+    pub fn start_stream<L>(&mut self, stream: GlobalStreamId, context: &mut Context<L>) -> bool
     where
         L: ListenerHandler + L7ListenerHandler,
     {
@@ -6638,6 +6652,12 @@ impl<Front: SocketHandler> ConnectionH2<Front> {
             self.graceful_goaway();
             return false;
         };
+        // RFC 9113 §6.9.2: a new stream starts with the window THIS peer announced
+        // (SETTINGS_INITIAL_WINDOW_SIZE), whatever the stream's other side was given.
+        if let Some(s) = context.streams.get_mut(stream) {
+            *s.split(&self.position).window =
+                i32::try_from(self.peer_settings.settings_initial_window_size).unwrap_or(i32::MAX);
+        }
         self.streams.insert(stream_id, stream);
         self.stream_last_activity_at
             .insert(stream_id, Instant::now());
